@@ -245,6 +245,10 @@ func init() {
 				return out
 			}
 			out.Viol = append(out.Viol, oracleC16(res)...)
+			for _, v := range servedIsStored(res) {
+				v.Class, v.Sig = "wrong_bytes", "wrong_bytes/"+v.Sig
+				out.Viol = append(out.Viol, v)
+			}
 			grew := map[string]bool{}
 			for _, r := range res.Hist {
 				if r.Op.K == "update" && r.Class == "accept" && r.StBefore.Has {
